@@ -4,13 +4,13 @@ import common
 
 def run(tier, replay=None):
     res = common.Result('C16', tier, 'exploration')
-    total = 100000 if tier == 'quick' else 5000000
+    total = 400000 if tier == 'quick' else 5000000
     exe = common.hbuild('h_model', ['h_model.cpp'], 'asan')
     sh = common.Sharded(exe, lambda a, b: ['c16', common.seed(), a, b], total, tag='c16', timeout=1500).run()
     common.absorb(res, sh)
     st = common.merge_stats(sh.stats)
     # concurrent half under the schedule controller
-    ctotal = 20000 if tier == 'quick' else 2000000
+    ctotal = 60000 if tier == 'quick' else 2000000
     exe2 = common.hbuild('h_queue', ['h_queue.cpp', 'vsched.cpp'], 'asan')
     sh2 = common.Sharded(exe2, lambda a, b: ['c16c', common.seed(), a, b], ctotal, tag='c16c', timeout=1500).run()
     common.absorb(res, sh2)
